@@ -1,5 +1,6 @@
 import CppUModel.Model.OutputEvents
 import CppUModel.Gen.EscapeTables
+import CppUModel.Gen.TeamCityWriters
 /-!
 # Model of `TeamCityTestOutput` (src/CppUTest/TeamCityTestOutput.cpp), written from the C++
 
@@ -7,6 +8,13 @@ State: `currtest_` (only its name is read) and `currGroup_` — both are carried
 repeated run (`-r`) into the next and never cleared.  The writer is a fold over the runner's
 output events; what it returns per event is the byte string handed to `printBuffer`.
 `printEscaped` follows the regenerated branch table `Gen.EscapeTables.tcBranches`.
+
+The five overridden callbacks and `TestOutput::printTestRun` are NOT written by hand any more: `step` is an
+INTERPRETER (`exec`) of the statement lists `Gen.TeamCityWriters.*`, regenerated from the C++ on every run
+(`translate/extract_teamcity.py`): print("literal") / printEscaped(field) / print(field) / print(number) /
+if (cond) { prints } / early-return guard / assignment to currtest_ / currGroup_, in source order.  The former
+hand-written writer is kept as `stepHand`; `Proofs/TeamCity.lean` proves `step = stepHand` (obligation
+`writers_are_the_source`), which is how every theorem below speaks about what the source says at check time.
 The base class parts that still print (`TestOutput::print`, `ConsoleTestOutput`'s summary in
 `printTestsEnded`) are modelled as well so that the whole captured stream can be compared.
 -/
@@ -74,7 +82,8 @@ def summaryOut (s : Summary) : Bytes :=
 def testRunOut (number total : Nat) : Bytes :=
   if total > 1 then lit "Test run " ++ dec number ++ lit " of " ++ dec total ++ lit "\n" else []
 
-def step (s : St) : Ev → St × List UInt8
+/-- the hand-written writer (reference the regenerated one is proved equal to) -/
+def stepHand (s : St) : Ev → St × List UInt8
   | .testRun i n => (s, testRunOut i n)
   | .testsStarted => (s, [])
   | .groupStarted t => ({ s with currGroup := t.group }, groupStartedOut t.group)
@@ -86,11 +95,124 @@ def step (s : St) : Ev → St × List UInt8
   | .groupEnded _ => (s, groupEndedOut s.currGroup)
   | .testsEnded sm => (s, summaryOut sm)
 
+/-! ## the interpreter of the regenerated statement lists -/
+
+open Gen.TeamCityWriters in
+/-- the argument of a callback: the `UtestShell` (test/group started), the test time (test ended), the
+    `TestFailure` (printFailure), the two numbers of `printTestRun` -/
+structure Env where
+  test      : TestInfo := default
+  ms        : Nat := 0
+  failure   : Failure := default
+  runNumber : Nat := 0
+  runTotal  : Nat := 0
+
+open Gen.TeamCityWriters in
+def fieldVal (s : St) (env : Env) : Field → Bytes
+  | .testName => env.test.name
+  | .testGroup => env.test.group
+  | .currTestName => (match s.currTest with | some n => n | none => [])    -- a null `currtest_` is excluded by the guard
+  | .currGroup => s.currGroup
+  | .failTestNameOnly => env.failure.testName
+  | .failFileName => env.failure.file
+  | .failTestFileName => env.failure.testFile
+  | .failMessage => env.failure.message
+
+open Gen.TeamCityWriters in
+def numVal (env : Env) : Num → Nat
+  | .testDuration => env.ms
+  | .failLine => env.failure.line
+  | .failTestLine => env.failure.testLine
+  | .runNumber => env.runNumber
+  | .runTotal => env.runTotal
+
+open Gen.TeamCityWriters in
+def condAtomHolds (env : Env) : CondAtom → Bool
+  | .testWillRun => env.test.willRun
+  | .failOutsideTestFile => env.failure.isOutsideTestFile
+  | .failInHelperFunction => env.failure.isInHelperFunction
+  | .runTotalGtOne => decide (env.runTotal > 1)
+
+open Gen.TeamCityWriters in
+/-- `a || !b || …` -/
+def condHolds (env : Env) : List (Bool × CondAtom) → Bool
+  | [] => false
+  | (neg, a) :: rest => (if neg then !condAtomHolds env a else condAtomHolds env a) || condHolds env rest
+
+open Gen.TeamCityWriters in
+def guardHolds (s : St) : Guard → Bool
+  | .currTestNull => s.currTest.isNone
+  | .currGroupEmpty => s.currGroup == []
+
+open Gen.TeamCityWriters in
+/-- one output call: what reaches `printBuffer` -/
+def atomOut (s : St) (env : Env) : Atom → Bytes
+  | .lit x => lit x
+  | .esc f => printEscaped (fieldVal s env f)
+  | .raw f => fieldVal s env f
+  | .num n => dec (numVal env n)
+
+def atomsOut (s : St) (env : Env) : List Gen.TeamCityWriters.Atom → Bytes
+  | [] => []
+  | a :: rest => atomOut s env a ++ atomsOut s env rest
+
+open Gen.TeamCityWriters in
+/-- run one callback: statements in source order, the state threaded through the assignments -/
+def exec (env : Env) : List Stmt → St → St × Bytes
+  | [], s => (s, [])
+  | .out a :: rest, s => ((exec env rest s).1, atomOut s env a ++ (exec env rest s).2)
+  | .cond d body :: rest, s =>
+    ((exec env rest s).1, (if condHolds env d then atomsOut s env body else []) ++ (exec env rest s).2)
+  | .returnIf g :: rest, s => if guardHolds s g then (s, []) else exec env rest s
+  | .setCurrTest :: rest, s => exec env rest { s with currTest := some env.test.name }
+  | .setCurrGroup :: rest, s => exec env rest { s with currGroup := env.test.group }
+
+/-- the writer: every overridden callback and `printTestRun` executed from the regenerated statement lists -/
+def step (s : St) : Ev → St × List UInt8
+  | .testRun i n => exec { runNumber := i, runTotal := n } Gen.TeamCityWriters.printTestRun s
+  | .testsStarted => (s, [])
+  | .groupStarted t => exec { test := t } Gen.TeamCityWriters.printCurrentGroupStarted s
+  | .testStarted t => exec { test := t } Gen.TeamCityWriters.printCurrentTestStarted s
+  | .print text => (s, text)
+  | .failure f => exec { failure := f } Gen.TeamCityWriters.printFailure s
+  | .veryVerbose text => (s, if s.veryVerbose then text else [])      -- `TestOutput::printVeryVerbose`
+  | .testEnded ms _ => exec { ms := ms } Gen.TeamCityWriters.printCurrentTestEnded s
+  | .groupEnded _ => exec {} Gen.TeamCityWriters.printCurrentGroupEnded s
+  | .testsEnded sm => (s, summaryOut sm)
+
 /-- the captured stream of a whole run; `vv` = very verbose mode on -/
 def streamV (vv : Bool) (evs : List Ev) : Bytes := (foldEvents step { veryVerbose := vv } evs).2
 
 /-- the captured stream of a whole run in the default mode (`-v` changes nothing here: the overridden
     `printCurrentTestStarted/Ended` do not look at the verbosity) -/
 def stream (evs : List Ev) : Bytes := streamV false evs
+
+/-! ## `CompositeTestOutput` (src/CppUTest/TestOutput.cpp): a TeamCity output next to another output -/
+
+/-- every callback goes to `outputOne_`, then to `outputTwo_`; the bytes of both, in that order -/
+def both {σ τ : Type} (a : σ → Ev → σ × Bytes) (b : τ → Ev → τ × Bytes) (s : σ × τ) (e : Ev) : (σ × τ) × Bytes :=
+  (((a s.1 e).1, (b s.2 e).1), (a s.1 e).2 ++ (b s.2 e).2)
+
+/-- an output whose bytes do not go to stdout (a console output writing elsewhere); state: callbacks seen -/
+def sinkStep (n : Nat) (_ : Ev) : Nat × Bytes := (n + 1, [])
+
+/-- what reaches stdout when the TeamCity output is `outputOne_` (position 1) / `outputTwo_` (position 2) of a composite
+    whose other output writes elsewhere -/
+def streamComposite (position : Nat) (vv : Bool) (evs : List Ev) : Bytes :=
+  if position == 1 then (foldEvents (both step sinkStep) ({ veryVerbose := vv }, 0) evs).2
+  else (foldEvents (both sinkStep step) (0, { veryVerbose := vv }) evs).2
+
+/-- the callbacks through which the runner, the tests and the base class reach an output -/
+def requiredForwards : List (String × String) :=
+  [("printTestsStarted", ""), ("printTestsEnded", "constTestResult&"), ("printCurrentTestStarted", "constUtestShell&"),
+   ("printCurrentTestEnded", "constTestResult&"), ("printCurrentGroupStarted", "constUtestShell&"),
+   ("printCurrentGroupEnded", "constTestResult&"), ("printFailure", "constTestFailure&"), ("print", "constchar*"),
+   ("print", "long"), ("print", "size_t"), ("printVeryVerbose", "constchar*"), ("verbose", "VerbosityLevel"),
+   ("printBuffer", "constchar*"), ("flush", "")]
+
+/-- in the regenerated table of `CompositeTestOutput`'s methods every required callback is forwarded to both outputs -/
+def compositeForwardsAll : Bool :=
+  requiredForwards.all fun r =>
+    Gen.TeamCityWriters.compositeForwards.any fun f => f.1 == r.1 && f.2.1 == r.2 && f.2.2.1 && f.2.2.2.1
 
 end TeamCity
